@@ -1,10 +1,30 @@
 /-
-Specification for C18: the evaluation algorithm of the OSV schema ("for each event in order:
-introduced → vulnerable if v ≥ introduced; fixed → not vulnerable if v ≥ fixed; last_affected → not
-vulnerable if v > last_affected"), well-formedness of a range, and the record-level rule.
+Specification for C18.
+
+PRIMARY: `osvDecl`, the property's own sentence, which needs no order on the events at all — a version is affected
+by a range iff it lies in an interval opened by an `introduced` event at or below it that no `fixed` event after the
+opening and at or below the version, and no `last_affected` event at or after the opening and strictly below the
+version, closes.
+
+ALSO: the evaluation loop of the OSV schema (`osvScan`: "for each event in order: introduced → vulnerable if
+v ≥ introduced; fixed → not vulnerable if v ≥ fixed; last_affected → not vulnerable if v > last_affected") run over the
+events ordered by (version, kind) with `fixed` before `introduced` before `last_affected` on one version
+(`osvRange`). `C18_decl` proves the two readings equal for EVERY event list in every listing order.
+
+Well-formedness (`WF`): ordered that way the events alternate introduced, fixed|last_affected, introduced, … and no
+event occurs twice. On one version this admits exactly: one event; `fixed X, introduced X` (adjacent intervals
+[a, X) [X, …)); `introduced X, last_affected X` (exactly the version X); and all three. It excludes
+{introduced X, fixed X} as an interval of its own (it would be empty: ordered, the `fixed` comes first and closes
+nothing), two closing events on one version, and duplicates.
 -/
 import Scalibr.Model.Vulns
 namespace Scalibr.Vulns
+
+/-- **The specification** (order-free): `q` lies in an interval opened by an `introduced` event `i` (`i.v ≤ q`) that is not
+closed by a `fixed` event `c` with `i.v < c.v ≤ q` or a `last_affected` event `c` with `i.v ≤ c.v < q`. -/
+def osvDecl (es : List Ev) (q : Nat) : Bool :=
+  es.any fun i => i.k = .intro && i.v ≤ q &&
+    !(es.any fun c => (c.k = .fixed && i.v < c.v && c.v ≤ q) || (c.k = .last && i.v ≤ c.v && c.v < q))
 
 /-- one step of the OSV evaluation loop -/
 def step (q : Nat) (vul : Bool) (e : Ev) : Bool :=
@@ -13,31 +33,37 @@ def step (q : Nat) (vul : Bool) (e : Ev) : Bool :=
   | .fixed => if q ≥ e.v then false else vul
   | .last  => if q > e.v then false else vul
 
-/-- the OSV evaluation of one range on events in version order -/
+/-- the OSV evaluation of one range on events in order -/
 def osvScan (es : List Ev) (q : Nat) : Bool := es.foldl (step q) false
 
-/-- ordered events: strictly increasing versions, alternating introduced / (fixed | last_affected),
+/-- on one version: a `fixed` ends the interval before an `introduced` opens the next, and a `last_affected` on the
+very version that opens an interval ends that interval (stated here without reference to the code's `eventOrder`) -/
+def kindBefore : Kind → Kind → Bool
+  | .fixed, .intro => true
+  | .fixed, .last => true
+  | .intro, .last => true
+  | _, _ => false
+
+/-- the order in which the OSV loop reads the events: by version, then `kindBefore` -/
+def osvBefore (a b : Ev) : Bool := a.v < b.v || (a.v == b.v && kindBefore a.k b.k)
+
+def osvOrder (es : List Ev) : List Ev := isort osvBefore es
+
+/-- ordered events: strictly increasing in (version, kind), alternating introduced / (fixed | last_affected),
 starting with introduced -/
-def WFfrom : (expectIntro : Bool) → (lo : Option Nat) → List Ev → Bool
+def WFfrom : (expectIntro : Bool) → (lo : Option Ev) → List Ev → Bool
   | _, _, [] => true
   | ei, lo, e :: es =>
-    (match lo with | none => true | some l => l < e.v) &&
-    (if ei then e.k = .intro else e.k ≠ .intro) && WFfrom (!ei) (some e.v) es
+    (match lo with | none => true | some l => osvBefore l e) &&
+    (if ei then e.k = .intro else e.k ≠ .intro) && WFfrom (!ei) (some e) es
 
 def WFsorted (es : List Ev) : Bool := WFfrom true none es
 
 /-- a range as listed (any order) is well formed when its events are once ordered -/
-def WF (es : List Ev) : Bool := WFsorted (sortEvents es)
+def WF (es : List Ev) : Bool := WFsorted (osvOrder es)
 
-/-- the OSV verdict for a range listed in any order: order the events, then evaluate -/
-def osvRange (es : List Ev) (q : Nat) : Bool := osvScan (sortEvents es) q
-
-/-- A declarative reading of the same rule (the property's own sentence): `q` lies in an interval
-opened by an `introduced` event at or below it and not closed by a later `fixed` at or below `q` or a
-later `last_affected` strictly below `q`. -/
-def osvDecl (es : List Ev) (q : Nat) : Bool :=
-  es.any fun i => i.k = .intro && i.v ≤ q &&
-    !(es.any fun c => i.v < c.v && ((c.k = .fixed && c.v ≤ q) || (c.k = .last && c.v < q)))
+/-- the OSV loop's verdict for a range listed in any order: order the events, then evaluate -/
+def osvRange (es : List Ev) (q : Nat) : Bool := osvScan (osvOrder es) q
 
 /-- which range types speak about a package's versions (OSV schema: ECOSYSTEM ranges use the ecosystem's own
 ordering; SEMVER ranges apply to packages whose versions ARE SemVer 2.0 — of the ecosystems deps.dev resolves
@@ -49,10 +75,10 @@ def matchingType (a : Affected) (r : Range) : Bool :=
   | .other => false
 
 /-- record level: some affected entry for this very package lists the version or has a range of a
-matching type whose OSV evaluation says "vulnerable" -/
+matching type in one of whose intervals (`osvDecl`) the version lies -/
 def specAffected (known : Nat → Bool) (vuln : List Affected) (p : Pkg) : Prop :=
   known p.eco = true ∧ ∃ a ∈ vuln, a.eco = p.eco ∧ a.name = p.name ∧
-    (p.vid ∈ a.versions ∨ ∃ r ∈ a.ranges, matchingType a r = true ∧ osvRange r.events p.version = true)
+    (p.vid ∈ a.versions ∨ ∃ r ∈ a.ranges, matchingType a r = true ∧ osvDecl r.events p.version = true)
 
 /-! ### the same rule stated with the ecosystem's comparison on version strings (no ranks) -/
 
@@ -68,9 +94,16 @@ def stepC {α : Type} (cmp : α → α → Ordering) (q : α) (vul : Bool) (e : 
   | .fixed => if cmp q e.v ≠ .lt then false else vul
   | .last  => if cmp q e.v = .gt then false else vul
 
-/-- the OSV verdict for a range listed in any order: order the events with the comparison, then evaluate -/
+/-- the OSV loop's verdict for a range listed in any order: order the events with the comparison (and `kindBefore` on
+versions that compare equal), then evaluate -/
 def osvRangeC {α : Type} (cmp : α → α → Ordering) (es : List (EvS α)) (q : α) : Bool :=
-  (isort (fun a b => cmp a.v b.v == .lt) es).foldl (stepC cmp q) false
+  (isort (fun a b => cmp a.v b.v == .lt || (cmp a.v b.v == .eq && kindBefore a.k b.k)) es).foldl (stepC cmp q) false
+
+/-- the order-free specification stated with the ecosystem's comparison itself -/
+def osvDeclC {α : Type} (cmp : α → α → Ordering) (es : List (EvS α)) (q : α) : Bool :=
+  es.any fun i => i.k = .intro && cmp i.v q != .gt &&
+    !(es.any fun c => (c.k = .fixed && cmp i.v c.v == .lt && cmp c.v q != .gt) ||
+                      (c.k = .last && cmp i.v c.v != .gt && cmp c.v q == .lt))
 
 def toRank {α : Type} (rank : α → Nat) (e : EvS α) : Ev := ⟨e.k, rank e.v⟩
 
@@ -81,7 +114,7 @@ namespace Scalibr.Vulns
 /-- executable form of `specAffected` (used by the driver as the oracle of the violation search) -/
 def specAffectedB (known : Nat → Bool) (vuln : List Affected) (p : Pkg) : Bool :=
   known p.eco && vuln.any fun a => a.eco = p.eco && a.name = p.name &&
-    (a.versions.contains p.vid || a.ranges.any fun r => matchingType a r && osvRange r.events p.version)
+    (a.versions.contains p.vid || a.ranges.any fun r => matchingType a r && osvDecl r.events p.version)
 
 theorem specAffectedB_iff (known : Nat → Bool) (vuln : List Affected) (p : Pkg) :
     specAffectedB known vuln p = true ↔ specAffected known vuln p := by
